@@ -11,6 +11,7 @@ COMMON_ASSUMPTIONS = [
 
 MIRI_BOXCAR = dict(name="boxcar", argv=["boxcar", "1", "20"], seeds=32)
 MIRI_NUCLEO = dict(name="nucleo", argv=["nucleo", "1", "16"], seeds=32)
+MIRI_EVENTLOOP = dict(name="eventloop", argv=["eventloop", "1", "40"], seeds=64, timeout=3000)
 MIRI_SORT = dict(name="sort", argv=["sort", "4100", "2"], seeds=2, timeout=1500)
 
 PROPERTIES = {
@@ -90,6 +91,7 @@ PROPERTIES = {
                "are visible through Injector::get.",
         assumptions=COMMON_ASSUMPTIONS,
         probes_expected=["eventloop.wait", "oracle.c13.notify_visibility", "tick.lock_failed"],
+        miri=[MIRI_EVENTLOOP],
     ),
     "C18": dict(
         quick_runs=60_000, thorough_runs=2_000_000, level="exploration",
